@@ -1506,9 +1506,45 @@ def path_rows(body, start=0, relevant=None, stop=None, limit=20000, meta=None):
     stop = set(stop or ())
     rows = []
     n = 0
-    stack = [(start, (), frozenset(), (start,))]
+    stack = [(start, (), frozenset(), (start,), frozenset())]
+    wcache = {}
+
+    def written(bb_):
+        # what block bb_ may overwrite, as text fragments of subjects: '.field' for a store through a field projection, the shown
+        # place for a `&mut` handed to a call
+        if bb_ not in wcache:
+            w = set()
+            for st in body.blocks[bb_]['stmts']:
+                p_ = st.get('p')
+                if p_ and st.get('rv') is not None:
+                    fl = place_fields(p_)
+                    if fl:
+                        w.add('.' + fl[-1])
+            t_ = body.term(bb_)
+            if t_['k'] == 'call':
+                for a_ in t_.get('args', []):
+                    l_ = None
+                    if isinstance(a_, dict):
+                        for k_ in ('mv', 'cp'):
+                            if isinstance(a_.get(k_), dict) and not a_[k_].get('pr'):
+                                l_ = a_[k_].get('l')
+                    try:
+                        ty_ = body.ty(l_) if l_ is not None else ''
+                    except Exception:
+                        ty_ = ''
+                    if '&mut' in ty_ or "&'" in ty_ and ' mut ' in ty_:
+                        sh = show(strip_refs(body.origin(a_)))
+                        if sh and len(sh) < 200 and '…' not in sh:
+                            w.add(sh)
+            wcache[bb_] = w
+        return wcache[bb_]
     while stack:
-        bb, cons, ks, path = stack.pop()
+        bb, cons, ks, path, stale = stack.pop()
+        wr = written(bb)
+        if wr and cons:
+            hit = {c_[0] for c_ in cons if c_[0] not in stale and any(w_ in c_[0] for w_ in wr)}
+            if hit:
+                stale = stale | hit
         n += 1
         if n > limit:
             raise CheckError('UNRECOGNISED: more than %d paths in %s' % (limit, body.path))
@@ -1549,7 +1585,7 @@ def path_rows(body, start=0, relevant=None, stop=None, limit=20000, meta=None):
                     elif 'else' not in vals:
                         truth = True if all(v != 0 for v in vals) else (False if all(v == 0 for v in vals) else None)
                     c = None if truth is None else (subj, '==' if ((mode == 'eq') == truth) else '!=', cv)
-                newc = cons if c is None else add_constraint(cons, c)
+                newc = cons if c is None else add_constraint(cons, c, stale)
                 if newc is False:
                     continue
                 nxt.append((tgt, newc))
@@ -1558,16 +1594,25 @@ def path_rows(body, start=0, relevant=None, stop=None, limit=20000, meta=None):
         for tgt, c2 in nxt:
             if tgt in path:
                 continue  # acyclic paths only
-            stack.append((tgt, c2, feas[tgt], path + (tgt,)))
+            stack.append((tgt, c2, feas[tgt], path + (tgt,), stale))
     return rows
 
 
-def add_constraint(cons, c):
-    """append c to constraint tuple; return False if it contradicts an existing equality on the same subject"""
+def add_constraint(cons, c, stale=()):
+    """append c to constraint tuple; return False if it contradicts an existing constraint on the same subject (unless the subject
+    may have been overwritten since: `stale`)"""
     subj, op, v = c
     for (s2, op2, v2) in cons:
-        if s2 != subj:
+        if s2 != subj or subj in stale:
             continue
+        if op == 'notin' and op2 == '==' and v2 in v:
+            return False
+        if op == 'notin' and op2 == 'in' and all(x in v for x in v2):
+            return False
+        if op == 'in' and op2 == '==' and v2 not in v:
+            return False
+        if op == 'in' and op2 == 'notin' and all(x in v2 for x in v):
+            return False
         if op == '==' and op2 == '==' and v != v2:
             return False
         if op == '==' and op2 == '!=' and v == v2:
